@@ -381,6 +381,13 @@ def hintAvailable (pool : List WP) (hint : Option Nat) : Bool :=
   | some h => match getW pool h with | some p => p.isAvailable | none => false
   | none => false
 
+/-- round-robin: the hint is the slot the router itself picked last (the backlog path asks for a target
+and then routes with that target as the hint) -/
+def hintLast (pool : List WP) (last : Nat) (hint : Option Nat) : Bool :=
+  match hint with
+  | some h => hasW pool h && h == last
+  | none => false
+
 /-- `CustomHashFunction::hash` of the harness: table-driven, depends on key and worker count;
 arbitrary values (out of range, `usize::MAX`). -/
 def customHash (table : List Nat) (key n : Nat) : Nat :=
@@ -423,7 +430,7 @@ def W.chooseTargetWorker (w : W) (j : Job) (hint : Option Nat) : Option Nat × W
           (r, { w with avail := avail, inQ := inQ })
   | .rr =>
     if w.poolSize == 0 then (none, w)
-    else if hintAvailable w.pool hint then (hint, w)
+    else if hintAvailable w.pool hint || hintLast w.pool w.last hint then (hint, w)
     else
       let k := rrNext w.last w.poolSize
       (if hasW w.pool k then some k else none, { w with last := k })
